@@ -191,6 +191,10 @@ def judge(c, ir, mr):
             return {"kind": "HTTP payload accepted/rejected differently from the verified reader", "why": "impl %s model %s" % (ir, mr)}
         return None
     exp = expected(mr)
+    if exp is not None and all(ir.get(k) == "PacketError" for k in ("tcp", "mtu", "uptime")):
+        from harness import findings
+        if findings.scapy_ao_short(findings.raw_opt_area(bytes.fromhex(c["raw"]), c["v"])):
+            return None      # Scapy cannot dissect a TCP-AO option of length 3 (finding KF-scapy-ao of C03); PacketError is an allowed outcome for C04
     if exp is not None:
         for k, v in exp.items():
             if ir.get(k) != v:
